@@ -4,6 +4,11 @@ Bounded-exhaustive enumeration of pole tables whose cells carry unique damping /
 (any mixture of two poles is visible), over explicit orders (int, per-mode list) and order='find_min',
 through ssi.SSI_mpe, plscf.pLSCF_mpe and the mpe methods of SSIcov and pLSCF on result objects assigned
 directly.  The oracle is a small extractor written from the property statement.
+
+Every call is also judged on "what was handed in is unchanged by the call" (bytes before / after of every table,
+the request list and the order list; on the class routes also the tables stored in the result object), and space
+CH repeats / chains extractions on the SAME table objects (function routes) or the SAME algorithm object (class
+routes): every extraction of a chain is judged against the reference computed from the pristine table.
 """
 import numpy as np
 
@@ -13,14 +18,20 @@ from mc.core import Tally
 ID = "C11"
 TECHNIQUE = ("bounded-exhaustive enumeration of tagged pole tables x requested frequencies x orders (int, per-mode list, "
              "'find_min') x rtol x with/without covariance tables, every call compared with a reference extractor written "
-             "from the statement; routes ssi.SSI_mpe, plscf.pLSCF_mpe, SSIcov.mpe, pLSCF.mpe")
+             "from the statement; routes ssi.SSI_mpe, plscf.pLSCF_mpe, SSIcov.mpe, pLSCF.mpe; every call also judged on 'what "
+             "was handed in is unchanged'; plus every chain of two (thorough: also three) extractions over a 6-operation "
+             "alphabet executed on the same table objects / the same algorithm object, each judged against the pristine table")
 LEVEL_TEXT = ("small-scope exhaustive: every table of the stated shapes over the stated cell catalogue is extracted from on "
-              "every route and the whole returned record is judged; nothing is sampled")
+              "every route and the whole returned record is judged; nothing is sampled. Chained space CH: every 2-row x 2-column "
+              "find_min-catalogue table x every ordered pair (thorough: also every ordered triple) of the 6 operations "
+              "{find_min for (10,20) / (10); int order 0, 1 and order lists [0,1], [1,0] for (10,20)} x 4 routes (SSI_mpe and "
+              "SSIcov.mpe with covariance tables, pLSCF_mpe, pLSCF.mpe), on objects that are kept between the extractions")
 RULE = ("a case is one pole table, executed over its whole grid of (requested frequencies, order, rtol, route, covariance); "
         "non-trivial = explicit order: for some request a column that is read holds two or more retained poles and the "
         "nearest one is outside the tolerance, or is not the first retained row, or has an equidistant twin; find_min: the "
         "lowest qualifying column is not column 0, or a column has a retained pole within tolerance of every requested "
-        "frequency and still does not qualify (an unstable or a second stable pole decides); distinct by (space, table index)")
+        "frequency and still does not qualify (an unstable or a second stable pole decides); chained space: the same criteria "
+        "on any extraction of any chain of the table; distinct by (space, table index)")
 ASSUMPTIONS = [
     "the reference extractor (nearest retained pole per requested frequency, |fn-f| <= rtol*f; lowest column with exactly "
     "one stable pole per requested frequency) is about 40 lines written from the statement",
@@ -31,6 +42,14 @@ ASSUMPTIONS = [
     "pLSCF_mpe(order='find_min') not finding an existing qualifying column is a listed known finding (pinned by "
     "test_pLSCF_mpe[find_min-1]); its cases without a qualifying column are judged normally",
     "tables with a column without retained poles are outside the quantifier and are skipped",
+    "the pole table the statement speaks of is the one the user handed in (function routes) or the one stored in the result "
+    "object when the first extraction starts (class routes): a later extraction on the same objects is judged against that "
+    "pristine table, and a call that alters a table, the request list or the order list it was given is reported "
+    "(bytes compared before / after; class key ...:input-changed:<names>)",
+    "chained space CH: the tables are of the find_min kind (every pole far inside or far outside both tolerances), so the "
+    "tolerance does not decide there; the k-th extraction of chain j on table i uses rtol index ((i + j) >> k) & 1, i.e. all "
+    "combinations of the two tolerances (and of the positional / keyword call form bound to them) occur along the chains, "
+    "rotating with the table and the chain; the request list and the order list are written anew for every extraction",
 ]
 
 NCH = 3
@@ -49,6 +68,13 @@ EL_SUB_T = [0, 3, 1, 4, 6]       # + 19.2
 FSYMS = ["nan", "f1-stable", "f1-unstable", "f2-stable", "spurious-stable"]
 ROUTES = ("SSI_mpe", "SSI_mpe+cov", "SSIcov.mpe", "SSIcov.mpe+cov", "pLSCF_mpe", "pLSCF.mpe")
 KNOWN_KEY = "find_min:pLSCF_mpe:qualifying-column-not-found"
+# chained space: operation alphabet (request index, order) for 2-column tables; a chain is a tuple of operations executed one
+# after the other on the same objects
+CH_OPS = [(0, "find_min"), (1, "find_min"), (0, 0), (0, 1), (0, [0, 1]), (0, [1, 0])]
+# names under which the tables are handed in
+ARG_NAMES = {"Fn": "Fn_pol", "Xi": "Xi_pol", "Phi": "Phi_pol", "Lab": "Lab", "Fc": "Fn_cov", "Xc": "Xi_cov", "Pc": "Phi_cov"}
+RES_NAMES = {"Fn": "Fn_poles", "Xi": "Xi_poles", "Phi": "Phi_poles", "Lab": "Lab", "Fc": "Fn_poles_cov", "Xc": "Xi_poles_cov",
+             "Pc": "Phi_poles_cov"}
 
 _TAGS = {}
 
@@ -120,6 +146,8 @@ def space_size(sp):
         return len(el_columns(sp[1])) ** 3
     if kind == "FM":           # ("FM", R, full_grid): every R-row x 3-column table over the find_min catalogue
         return len(FSYMS) ** (sp[1] * 3)
+    if kind == "CH":           # ("CH", R, C, L): every R-row x C-column table over the find_min catalogue, chains of length L
+        return len(FSYMS) ** (sp[1] * sp[2])
     raise ValueError(sp)
 
 
@@ -149,15 +177,16 @@ def build(sp, idx, seed, family="ssi"):
             fill_column(T, seed, c, list(cols[d[c]]))
         T["Lab"][:] = 1
         return T, {"columns": [[ESYMS[s] for s in cols[x]] for x in d]}
-    if kind == "FM":
+    if kind in ("FM", "CH"):
         R = sp[1]
-        d = np.array(digits(idx, len(FSYMS), R * 3)).reshape(R, 3)
+        NC = 3 if kind == "FM" else sp[2]
+        d = np.array(digits(idx, len(FSYMS), R * NC)).reshape(R, NC)
         names = [[FSYMS[x] for x in row] for row in d.tolist()]
         if (d == 0).all(axis=0).any():
             return None, names
-        T = empty(R, 3)
+        T = empty(R, NC)
         for r in range(R):
-            for c in range(3):
+            for c in range(NC):
                 s = d[r, c]
                 if s == 0:
                     continue
@@ -188,6 +217,8 @@ def grid(sp):
                     out.append((0, [c1, c2], ri))
                 out.append((1, [c1], ri))
                 out.append((2, [c1], ri))
+    elif kind == "CH":
+        return chains(sp)
     else:
         reqs = range(len(REQS)) if sp[2] else [0]
         for q in reqs:
@@ -196,7 +227,26 @@ def grid(sp):
     return out
 
 
+def chains(sp):
+    """Every tuple of sp[3] operations of the alphabet (ordered, repetition allowed)."""
+    assert sp[2] == 2, "the operation alphabet is written for 2-column tables"
+    out = [()]
+    for _ in range(sp[3]):
+        out = [ch + (op,) for ch in out for op in range(len(CH_OPS))]
+    return out
+
+
+def chain_ops(idx, j, ch):
+    """[(request index, order, rtol index)] of chain number j on table idx."""
+    return [(CH_OPS[op][0], CH_OPS[op][1], ((idx + j) >> k) & 1) for k, op in enumerate(ch)]
+
+
+CH_ROUTES = ("SSI_mpe+cov", "SSIcov.mpe+cov", "pLSCF_mpe", "pLSCF.mpe")
+
+
 def routes_for(sp):
+    if sp[0] == "CH":       # the SSI routes with covariance tables: every table is handed in and the whole record is judged
+        return CH_ROUTES
     if sp[0] == "FM" and not sp[2]:
         return ("SSI_mpe+cov", "pLSCF_mpe")
     return ROUTES
@@ -271,15 +321,39 @@ def _mpe_form(alg, freqs, order, rtol):
         alg.mpe(sel_freq=freqs, order=order, rtol=rtol)
 
 
-def call(route, T, freqs, order, rtol):
-    """Execute one extraction; returns an Out record (or raises what the library raises)."""
+class Holder:
+    """What a user keeps between two extractions: the table objects (function routes), the algorithm object with the result
+    object the tables were assigned to (class routes). A fresh Holder per call = the independent extractions of the other
+    spaces; one Holder per chain = extraction repeated on the same objects."""
+
+    def __init__(self, T):
+        self.a = {k: v.copy() for k, v in T.items()}
+        self.alg = None
+        self.reported = set()      # names already reported as changed by an earlier extraction of the same chain
+
+
+def table_bytes(T):
+    return {k: (v.tobytes(), v.shape, v.dtype) for k, v in T.items()}
+
+
+def _differs(x, ref):
+    return not (isinstance(x, np.ndarray) and x.tobytes() == ref[0] and x.shape == ref[1] and x.dtype == ref[2])
+
+
+def call(route, T, freqs, order, rtol, holder=None, Tb=None):
+    """Execute one extraction; returns an Out record (or raises what the library raises). o.changed lists what was handed in
+    (or is stored in the result object) and is not, after the call, what it was: pristine bytes Tb of table T."""
     cov = route.endswith("+cov")
     base = route.split("+")[0]
+    freqs0, order0 = list(freqs), (list(order) if isinstance(order, list) else order)
     freqs = list(freqs)
     order = list(order) if isinstance(order, list) else order
-    a = {k: v.copy() for k, v in T.items()}
+    h = holder if holder is not None else Holder(T)
+    a = h.a
+    Tb = Tb if Tb is not None else table_bytes(T)
     o = Out()
     o.cov = cov
+    handed = ("Fn", "Xi", "Phi", "Lab") + (("Fc", "Xc", "Pc") if cov else ())
     if base == "SSI_mpe":
         from pyoma2.functions import ssi
 
@@ -296,9 +370,11 @@ def call(route, T, freqs, order, rtol):
         from pyoma2.algorithms.data.result import SSIResult
         from pyoma2.algorithms.ssi import SSIcov
 
-        alg = SSIcov(name="c11", br=2)
-        kw = dict(Fn_poles_cov=a["Fc"], Xi_poles_cov=a["Xc"], Phi_poles_cov=a["Pc"]) if cov else {}
-        alg.result = SSIResult(Fn_poles=a["Fn"], Xi_poles=a["Xi"], Phi_poles=a["Phi"], Lab=a["Lab"], **kw)
+        if h.alg is None:
+            h.alg = SSIcov(name="c11", br=2)
+            kw = dict(Fn_poles_cov=a["Fc"], Xi_poles_cov=a["Xc"], Phi_poles_cov=a["Pc"]) if cov else {}
+            h.alg.result = SSIResult(Fn_poles=a["Fn"], Xi_poles=a["Xi"], Phi_poles=a["Phi"], Lab=a["Lab"], **kw)
+        alg = h.alg
         _mpe_form(alg, freqs, order, rtol)
         res = alg.result
         o.Fn, o.Xi, o.Phi, o.order_out, o.Fc, o.Xc, o.Pc = res.Fn, res.Xi, res.Phi, res.order_out, res.Fn_cov, res.Xi_cov, res.Phi_cov
@@ -306,14 +382,36 @@ def call(route, T, freqs, order, rtol):
         from pyoma2.algorithms.data.result import pLSCFResult
         from pyoma2.algorithms.plscf import pLSCF
 
-        alg = pLSCF(name="c11", ordmax=3)
-        alg.result = pLSCFResult(Fn_poles=a["Fn"], Xi_poles=a["Xi"], Phi_poles=a["Phi"], Lab=a["Lab"])
+        if h.alg is None:
+            h.alg = pLSCF(name="c11", ordmax=3)
+            h.alg.result = pLSCFResult(Fn_poles=a["Fn"], Xi_poles=a["Xi"], Phi_poles=a["Phi"], Lab=a["Lab"])
+        alg = h.alg
         _mpe_form(alg, freqs, order, rtol)
         res = alg.result
         o.Fn, o.Xi, o.Phi, o.order_out = res.Fn, res.Xi, res.Phi, res.order_out
         o.Fc = o.Xc = o.Pc = None
     else:
         raise ValueError(route)
+    # ---- what was handed in must be what it was
+    ch = []
+    res = h.alg.result if h.alg is not None else None
+    for k in handed:
+        x, ref = a[k], Tb[k]
+        if x.tobytes() != ref[0] or x.shape != ref[1] or x.dtype != ref[2]:
+            ch.append(ARG_NAMES[k] + (" (array handed to the result object)" if res is not None else ""))
+        if res is not None:
+            y = getattr(res, RES_NAMES[k], None)
+            if (y is not x and _differs(y, ref)) or (y is x and ch and ch[-1].startswith(ARG_NAMES[k] + " ")):
+                ch.append("result." + RES_NAMES[k])
+    if freqs != freqs0:
+        ch.append("sel_freq")
+    if type(order) is not type(order0) or order != order0:
+        ch.append("order")
+    if ch or h.reported:
+        o.changed = [n for n in ch if n not in h.reported]
+        h.reported.update(ch)
+    else:
+        o.changed = ch
     return o
 
 
@@ -402,22 +500,54 @@ def judge_modes(t, pre, route, modes, expected, T, cov, case, ctx_txt):
     return good
 
 
-def one_call(t, sp, idx, seed, route, q, order, ri, Tcache, count=True):
-    """Execute and judge one extraction. Returns the non-trivial flag."""
+class _Lazy:
+    """Text that is only needed when a violation is written."""
+
+    def __init__(self, f):
+        self.f = f
+
+    def __str__(self):
+        return self.f()
+
+    def __format__(self, spec):
+        return self.f()
+
+
+def kind_of(order):
+    return "find_min" if order == "find_min" else "explicit-int" if isinstance(order, int) else "explicit-list"
+
+
+def one_call(t, sp, idx, seed, route, q, order, ri, Tcache, count=True, holder=None, before=None):
+    """Execute and judge one extraction. Returns the non-trivial flag.
+    holder / before: the objects kept from, and the operations [(q, order, ri)] already executed in, the same chain (before=[]
+    for the first extraction of a chain; None outside the chained space: fresh objects)."""
     family = "plscf" if route.startswith("pLSCF") else "ssi"
     if family not in Tcache:
-        Tcache[family] = build(sp, idx, seed, family if sp[0] == "FM" else "ssi")
+        Tcache[family] = build(sp, idx, seed, family if sp[0] in ("FM", "CH") else "ssi")
     T, listing = Tcache[family]
+    if ("bytes", family) not in Tcache:
+        Tcache[("bytes", family)] = table_bytes(T)
+    Tb = Tcache[("bytes", family)]
     freqs = REQS[q]
     rtol = RTOLS[ri]
     if order == "pos":
         order = int(listing["position"])
-    kind = "find_min" if order == "find_min" else "explicit-int" if isinstance(order, int) else "explicit-list"
+    kind = kind_of(order)
     case = {"space": list(sp), "index": int(idx), "seed": seed, "route": route, "request": q, "order": order, "rtol": ri,
             "table": listing, "requested": list(freqs)}
     cov = route.endswith("+cov")
     full_route, route = route, route.split("+")[0]      # violation classes do not distinguish with / without covariances
     ctx_txt = f"f={list(freqs)} order={order!r} rtol={rtol}{' with covariance tables' if cov else ''}"
+    # pre: prefix of the violation class; okey: prefix of the outcome counters
+    pre, okey = kind, f"{full_route}:{kind}"
+    if before is not None:
+        case["executed_before_on_the_same_objects"] = [[b[0], b[1], b[2]] for b in before]
+        if before:
+            hist = "+".join(kind_of(b[1]) for b in before)
+            pre, okey = f"after-{hist}:{kind}", f"{full_route}:chain:{hist}->{kind}"
+            ctx_txt = _Lazy(lambda head=ctx_txt: head + (" as extraction no. %d on the same %s, after %s" % (
+                len(before) + 1, "algorithm object" if ".mpe" in route else "table objects",
+                "; ".join(f"f={list(REQS[b[0]])} order={b[1]!r} rtol={RTOLS[b[2]]}" for b in before))))
     # ---- reference
     if kind == "find_min":
         ref = ref_find_min(T, freqs, rtol)
@@ -435,46 +565,52 @@ def one_call(t, sp, idx, seed, route, q, order, ri, Tcache, count=True):
     t.evaluations += 1
     t.transitions += 1
     try:
-        o = call(full_route, T, freqs, order, rtol)
+        o = call(full_route, T, freqs, order, rtol, holder, Tb)
     except Exception as e:
-        t.violation(f"{kind}:{route}:raises:{type(e).__name__}", f"{route} {ctx_txt} raised {type(e).__name__}: {e}", case)
+        t.violation(f"{pre}:{route}:raises:{type(e).__name__}", f"{route} {ctx_txt} raised {type(e).__name__}: {e}", case)
         return nontrivial
     t.validated += 1
+    if o.changed:
+        t.violation(f"{pre}:{route}:input-changed:" + "+".join(n.split()[0] for n in o.changed),
+                    f"{route} {ctx_txt}: after the call {o.changed} differ(s) from what was handed in / stored before the first "
+                    f"extraction (bytes compared with the pristine table)", case)
+    elif count:
+        t.outcomes[f"{okey}:inputs-unchanged"] += 1
     modes = modes_of(o)
     if isinstance(modes, str):
-        t.violation(f"{kind}:{route}:unreadable-record", f"{route} {ctx_txt}: {modes}", case)
+        t.violation(f"{pre}:{route}:unreadable-record", f"{route} {ctx_txt}: {modes}", case)
         return nontrivial
     if kind == "find_min":
         if cstar is None:
             if modes:
-                t.violation(f"{kind}:{route}:modes-returned-although-no-order-qualifies",
+                t.violation(f"{pre}:{route}:modes-returned-although-no-order-qualifies",
                             f"{route} {ctx_txt}: returned {brief(modes)} (order_out={o.order_out!r}) although no column has exactly one "
                             f"stable pole within tolerance of every requested frequency", case)
             elif count:
-                t.outcomes[f"{full_route}:find_min:nothing-qualifies-nothing-returned"] += 1
+                t.outcomes[f"{okey}:nothing-qualifies-nothing-returned"] += 1
             return nontrivial
         if not modes:
-            key = KNOWN_KEY if family == "plscf" else f"{kind}:{route}:qualifying-column-not-found"
+            key = KNOWN_KEY if family == "plscf" else f"{pre}:{route}:qualifying-column-not-found"
             t.violation(key, f"{full_route} {ctx_txt}: nothing returned (order_out={o.order_out!r}) although column {cstar} has exactly one stable "
                              f"pole within tolerance of every requested frequency (cells {cells})", case)
             if count:
-                t.outcomes[f"{full_route}:find_min:qualifying-column-exists"] += 1
+                t.outcomes[f"{okey}:qualifying-column-exists"] += 1
             return nontrivial
         try:
             oo = int(o.order_out)
         except Exception:
             oo = None
         if oo != cstar:
-            t.violation(f"{kind}:{route}:not-the-lowest-qualifying-order",
+            t.violation(f"{pre}:{route}:not-the-lowest-qualifying-order",
                         f"{route} {ctx_txt}: order_out={o.order_out!r}, lowest qualifying column is {cstar}; returned {brief(modes)}", case)
             return nontrivial
-        if judge_modes(t, kind, route, modes, cells, T, cov, case, ctx_txt) and count:
-            t.outcomes[f"{full_route}:find_min:found@column{cstar}"] += 1
-            t.outcomes[f"{full_route}:find_min:qualifying-column-exists"] += 1
+        if judge_modes(t, pre, route, modes, cells, T, cov, case, ctx_txt) and count:
+            t.outcomes[f"{okey}:found@column{cstar}"] += 1
+            t.outcomes[f"{okey}:qualifying-column-exists"] += 1
         return nontrivial
     # explicit order
     expected = [c for c in cells if c]
-    good = judge_modes(t, kind, route, modes, expected, T, cov, case, ctx_txt)
+    good = judge_modes(t, pre, route, modes, expected, T, cov, case, ctx_txt)
     want = np.asarray(order, float)
     try:
         got = np.asarray(o.order_out, float)
@@ -483,13 +619,30 @@ def one_call(t, sp, idx, seed, route, q, order, ri, Tcache, count=True):
         same = False
     if not same:
         good = False
-        t.violation(f"{kind}:{route}:order_out-differs-from-request", f"{route} {ctx_txt}: order_out={o.order_out!r}", case)
+        t.violation(f"{pre}:{route}:order_out-differs-from-request", f"{route} {ctx_txt}: order_out={o.order_out!r}", case)
     if good and count:
         nf = len(expected)
-        t.outcomes[f"{full_route}:{kind}:" + ("all-found" if nf == len(freqs) else "none-found" if nf == 0 else "some-found")] += 1
+        t.outcomes[f"{okey}:" + ("all-found" if nf == len(freqs) else "none-found" if nf == 0 else "some-found")] += 1
         if any(len(c) > 1 for c in cells):
-            t.outcomes[f"{full_route}:{kind}:equidistant-either"] += 1
+            t.outcomes[f"{okey}:equidistant-either"] += 1
+        if before and any(T["Lab"][r, c] != 1 for cc in expected for r, c in cc):
+            # the corner of the chained space: the pole that must be returned is retained but not labelled stable, i.e. it is not
+            # one of the poles an automatic extraction executed before on the same objects was interested in
+            t.outcomes[f"{okey}:returns-retained-pole-not-labelled-stable"] += 1
     return nontrivial
+
+
+def one_chain(t, sp, idx, seed, route, ops, Tcache, count=True):
+    """Execute the operations [(q, order, ri)] one after the other on the same objects; every extraction is judged against the
+    pristine table. The first one is an extraction on fresh objects (judged; its outcomes are not counted again)."""
+    family = "plscf" if route.startswith("pLSCF") else "ssi"
+    if family not in Tcache:
+        Tcache[family] = build(sp, idx, seed, family)
+    holder = Holder(Tcache[family][0])
+    nt = False
+    for k, (q, order, ri) in enumerate(ops):
+        nt = one_call(t, sp, idx, seed, route, q, order, ri, Tcache, count and k > 0, holder, list(ops[:k])) or nt
+    return nt
 
 
 SPACE_CODES = {}
@@ -515,10 +668,14 @@ def work(item):
             t.skipped_by_guard += 1
             continue
         cache["ssi"] = (T, listing)
-        if sp[0] != "FM":
+        if sp[0] not in ("FM", "CH"):
             cache["plscf"] = cache["ssi"]
         nt = False
         for route in routes:
+            if sp[0] == "CH":
+                for j, ch in enumerate(g):
+                    nt = one_chain(t, sp, idx, seed, route, chain_ops(idx, j, ch), cache) or nt
+                continue
             for q, order, ri in g:
                 nt = one_call(t, sp, idx, seed, route, q, order, ri, cache) or nt
         if nt:
@@ -531,8 +688,9 @@ def work(item):
 
 def plan(tier):
     if tier == "quick":
-        return [(("EI", 3), 96), (("EL", EL_SUB_Q), 75), (("FM", 2, True), 125)]
-    return [(("EI", 3), 96), (("EI", 4), 256), (("EL", EL_SUB_T), 128), (("FM", 2, True), 125), (("FM", 3, False), 3125)]
+        return [(("EI", 3), 96), (("EL", EL_SUB_Q), 75), (("FM", 2, True), 125), (("CH", 2, 2, 2), 12)]
+    return [(("EI", 3), 96), (("EI", 4), 256), (("EL", EL_SUB_T), 128), (("FM", 2, True), 125), (("FM", 3, False), 3125),
+            (("CH", 2, 2, 2), 12), (("CH", 2, 2, 3), 2)]
 
 
 def describe(sp):
@@ -542,13 +700,19 @@ def describe(sp):
     if sp[0] == "EL":
         return (f"EL: every 2-row x 3-column table with non-empty columns over {[ESYMS[s] for s in sp[1]]}; every per-mode order list "
                 f"over the 3 columns for (10, 20) and for the singletons; rtol {RTOLS}")
+    if sp[0] == "CH":
+        return (f"CH: every {sp[1]}-row x {sp[2]}-column table over {FSYMS} without an empty column; every ordered {sp[3]}-tuple "
+                f"(repetition allowed) of the operations {[(list(REQS[q]), o) for q, o in CH_OPS]} executed one after the other on "
+                f"the same table objects (SSI_mpe, pLSCF_mpe) or the same algorithm object (SSIcov.mpe, pLSCF.mpe), routes "
+                f"{list(CH_ROUTES)}; every "
+                f"extraction judged against the pristine table; rtol index of extraction k of chain j on table i: ((i+j)>>k)&1")
     return (f"FM: every {sp[1]}-row x 3-column table over {FSYMS} without an empty column, order='find_min', "
             f"requests {REQS if sp[2] else REQS[:1]}, rtol {RTOLS}, routes {list(routes_for(sp))}")
 
 
 def warm(seed):
     t = Tally()
-    for sp in (("EI", 3), ("FM", 2, True)):
+    for sp in (("EI", 3), ("FM", 2, True), ("CH", 2, 2, 2)):
         work((sp, 0, 30, 32, seed))
     return t
 
@@ -556,7 +720,10 @@ def warm(seed):
 def explore(ctx):
     items = []
     bounds = {"cell_catalogue_explicit": ESYMS, "cell_catalogue_find_min": FSYMS, "requests": REQS, "rtol": RTOLS,
-              "routes": list(ROUTES), "shape_components": NCH, "spaces": []}
+              "routes": list(ROUTES), "shape_components": NCH, "spaces": [],
+              "judged_on_every_call": "returned record against the reference extractor; every table handed in (and, class routes, "
+                                      "stored in the result object), the request list and the order list byte-identical after the call",
+              "chain_operations": [[list(REQS[q]), o] for q, o in CH_OPS]}
     per_space = []
     for sp, step in plan(ctx.tier):
         n = space_size(sp)
@@ -577,6 +744,19 @@ def explore(ctx):
                 f"{r}:find_min:qualifying-column-exists"]
     for r in ROUTES[:4]:
         req += [f"{r}:find_min:found@column{c}" for c in range(3)]
+    # every call form leaves what it was given unchanged; chained space: every (kinds before -> kind) on every route was judged
+    # as on fresh objects, and explicit orders executed after an automatic extraction had to return retained poles that are
+    # not labelled stable
+    kinds = ("find_min", "explicit-int", "explicit-list")
+    req += [f"{r}:{k}:inputs-unchanged" for r in ROUTES for k in kinds]
+    for r in CH_ROUTES:
+        for k1 in kinds:
+            req += [f"{r}:chain:{k1}->{k2}:inputs-unchanged" for k2 in kinds]
+            req += [f"{r}:chain:{k1}->{k2}:all-found" for k2 in kinds[1:]]
+            req += [f"{r}:chain:{k1}->{k2}:returns-retained-pole-not-labelled-stable" for k2 in kinds[1:]]
+            req += [f"{r}:chain:{k1}->find_min:nothing-qualifies-nothing-returned", f"{r}:chain:{k1}->find_min:qualifying-column-exists"]
+    for r in CH_ROUTES[:2]:
+        req += [f"{r}:chain:{k1}->find_min:found@column{c}" for k1 in kinds for c in range(2)]
     ctx.require(*req)
 
 
@@ -586,5 +766,10 @@ def replay(case):
     order = case["order"]
     if isinstance(order, int) and sp[0] == "EI":
         order = "pos"
+    before = case.get("executed_before_on_the_same_objects")
+    if before is not None:
+        ops = [tuple(b) for b in before] + [(case["request"], order, case["rtol"])]
+        one_chain(t, sp, case["index"], case["seed"], case["route"], ops, {})
+        return t
     one_call(t, sp, case["index"], case["seed"], case["route"], case["request"], order, case["rtol"], {})
     return t
